@@ -25,7 +25,8 @@ package main
 //	malformed  truncated and altered blocks, custom-serialization flag set
 //	nested     adoption below wrappers: Array / Map (also nested in each other) around Enum, DateTime, DateTime64 leaves,
 //	           2-3 blocks whose types differ in leaf parameters only, against targets built blank or with other
-//	           parameters; Nullable / LowCardinality as wrappers, Map sides whose types contain commas
+//	           parameters; Nullable / LowCardinality as wrappers, Map sides whose types contain commas; Tuple, named
+//	           Tuple and Tuple in Tuple around such leaves (ColTuple.Infer / ColNamed.Infer repaired by C18y)
 //	arity      Tuple / Map types of different arity where one is an element-wise compatible prefix of the other, in both
 //	           directions, followed by a String column (what a mis-bound tuple would read); every ordered pair, every run
 //	failbind   a block that fails (cut / altered / foreign schema) followed by well-formed blocks of the targets' own
@@ -51,7 +52,7 @@ type c18Spec struct {
 	c14ColSpec
 	inferAs    string // after mk(): Infer(inferAs) gives the column its parameters (source columns need them)
 	targetOnly bool   // a column without parameters: usable as a target only
-	noBind     bool   // ColTuple.Infer hands the whole Tuple(...) string to every inferable element: such a tuple rejects its own type
+	noBind     bool   // (unused since the C18y repair of ColTuple.Infer: a tuple with an inferable element binds its own type now)
 	alias      string // a source only: the filled column is sent under this type string (proto.Alias)
 }
 
@@ -109,8 +110,28 @@ var c18Params = []c18Spec{
 	c18M(func() proto.Column {
 		return proto.ColTuple{proto.Named[string](new(proto.ColStr), "s"), proto.Named[int64](new(proto.ColInt64), "i")}
 	}, ""),
-	{c14ColSpec: c14ColSpec{mk: func() proto.Column { return proto.ColTuple{new(proto.ColDateTime), new(proto.ColStr)} }}, noBind: true},
-	{c14ColSpec: c14ColSpec{mk: func() proto.Column { return proto.ColTuple{new(proto.ColStr), new(proto.ColInterval)} }}, noBind: true},
+	{c14ColSpec: c14ColSpec{mk: func() proto.Column { return proto.ColTuple{new(proto.ColDateTime), new(proto.ColStr)} }}},
+	{c14ColSpec: c14ColSpec{mk: func() proto.Column { return proto.ColTuple{new(proto.ColStr), new(proto.ColInterval)} }}},
+	// tuples with adopting elements, differing in element parameters only (ColTuple.Infer: element i gets argument i)
+	c18M(func() proto.Column { return proto.ColTuple{new(proto.ColStr), new(proto.ColDateTime64)} }, "Tuple(String, DateTime64(3))"),
+	c18M(func() proto.Column { return proto.ColTuple{new(proto.ColStr), new(proto.ColDateTime64)} }, "Tuple(String, DateTime64(6, 'UTC'))"),
+	c18M(func() proto.Column { return proto.ColTuple{new(proto.ColStr), new(proto.ColDateTime64)} }, "Tuple(String,DateTime64(9))"),
+	c18M(func() proto.Column { return proto.ColTuple{new(proto.ColStr), new(proto.ColEnum)} }, "Tuple(String, Enum8('a' = 1, 'b' = 2))", "a", "b"),
+	c18M(func() proto.Column { return proto.ColTuple{new(proto.ColStr), new(proto.ColEnum)} }, "Tuple(String, Enum16('a' = 1, 'b' = 2))", "a", "b"),
+	c18M(func() proto.Column { return proto.ColTuple{new(proto.ColStr), new(proto.ColEnum)} }, "Tuple(String, Enum8('c' = 1, 'd' = 2))", "c", "d"),
+	c18M(func() proto.Column { return proto.ColTuple{new(proto.ColStr), new(proto.ColInt8)} }, ""),
+	c18M(func() proto.Column {
+		return proto.ColTuple{proto.Named[string](new(proto.ColStr), "s"), proto.Named[string](new(proto.ColEnum), "e")}
+	}, "Tuple(s String, e Enum8('a' = 1, 'b' = 2))", "a", "b"),
+	c18M(func() proto.Column {
+		return proto.ColTuple{proto.Named[string](new(proto.ColStr), "s"), proto.Named[string](new(proto.ColEnum), "f")}
+	}, "Tuple(s String, f Enum8('a' = 1, 'b' = 2))", "a", "b"),
+	c18M(func() proto.Column {
+		return proto.ColTuple{new(proto.ColEnum), new(proto.ColDateTime).Nullable()}
+	}, "Tuple(Enum8('a' = 1, 'b' = 2), Nullable(DateTime('UTC')))", "a", "b"),
+	c18M(func() proto.Column {
+		return proto.ColTuple{new(proto.ColStr), proto.ColTuple{new(proto.ColEnum), new(proto.ColDateTime64)}}
+	}, "Tuple(String, Tuple(Enum8('a' = 1, 'b' = 2), DateTime64(3, 'UTC')))", "a", "b"),
 	c18T("FixedString(8)"), c18T("FixedString(16)"),
 	{c14ColSpec: c14ColSpec{mk: func() proto.Column { return &proto.ColFixedStr{Size: 8} }, bytesLen: 8}},
 	{c14ColSpec: c14ColSpec{mk: func() proto.Column { return &proto.ColFixedStr{Size: 3} }, bytesLen: 3}},
@@ -132,6 +153,12 @@ var c18Blank = []c18Spec{
 		return new(proto.ColDateTime64).WithPrecision(proto.PrecisionMilli).WithLocation(time.UTC)
 	}}, targetOnly: true},
 	{c14ColSpec: c14ColSpec{mk: func() proto.Column { return new(proto.ColDateTime64).Array() }}, targetOnly: true},
+	{c14ColSpec: c14ColSpec{mk: func() proto.Column { return proto.ColTuple{new(proto.ColStr), new(proto.ColDateTime64)} }}, targetOnly: true},
+	{c14ColSpec: c14ColSpec{mk: func() proto.Column { return proto.ColTuple{new(proto.ColStr), new(proto.ColEnum)} },
+		strPool: []string{"a", "b"}}, targetOnly: true},
+	{c14ColSpec: c14ColSpec{mk: func() proto.Column {
+		return proto.ColTuple{proto.Named[string](new(proto.ColStr), "s"), proto.Named[string](new(proto.ColEnum), "e")}
+	}, strPool: []string{"a", "b"}}, targetOnly: true},
 }
 
 func c18Pool() (all []c18Spec, sources []c18Spec) {
@@ -581,7 +608,37 @@ func c18Adopted(col any, srv string, hadZone string) string {
 		if string(c.Type()) != srv {
 			return fmt.Sprintf("ColInterval reports %q after binding %q", c.Type(), srv)
 		}
+	case proto.ColTuple:
+		// element i carries the parameters spelled in the i-th argument of Tuple(...)
+		args := c18TopArgs(string(proto.ColumnType(srv).Elem()))
+		if len(args) != len(c) {
+			for _, e := range c {
+				if _, inf := e.(proto.Inferable); inf {
+					return fmt.Sprintf("a tuple of %d elements, one of them adopting, was bound to %q", len(c), srv)
+				}
+			}
+			return "" // nothing to adopt: ColumnType.Conflicts alone decides (the empty tuple is "Tuple")
+		}
+		for i, e := range c {
+			if m := c18Adopted(e, strings.TrimSpace(args[i]), ""); m != "" {
+				return fmt.Sprintf("tuple element %d: %s", i, m)
+			}
+		}
 	default:
+		if n, ok := col.(interface{ ColumnName() string }); ok { // ColNamed[T]: "name type"
+			rest, found := strings.CutPrefix(srv, n.ColumnName()+" ")
+			if !found {
+				return fmt.Sprintf("an element named %q was bound to %q", n.ColumnName(), srv)
+			}
+			v := reflect.ValueOf(col)
+			if v.Kind() == reflect.Pointer {
+				v = v.Elem()
+			}
+			if f := v.FieldByName("ColumnOf"); f.IsValid() && !f.IsNil() {
+				return c18Adopted(f.Interface(), rest, "")
+			}
+			return ""
+		}
 		v := reflect.ValueOf(col)
 		if v.Kind() != reflect.Pointer || v.Elem().Kind() != reflect.Struct {
 			return ""
@@ -642,6 +699,7 @@ func c18TopArgs(s string) []string {
 
 type c18Pre struct {
 	name string
+	typ  string // Type() before the call, for tuple targets ("" otherwise)
 	data string // contents before the call ("" when the column cannot be dumped)
 	rows int
 }
@@ -650,6 +708,9 @@ func c18Snapshot(res proto.Results) []c18Pre {
 	out := make([]c18Pre, len(res))
 	for i, rc := range res {
 		out[i].name = rc.Name
+		if tup, ok := rc.Data.(proto.ColTuple); ok {
+			out[i].typ = c18TypeOf(tup)
+		}
 		if c18Weight(rc.Data) > c18AccMax {
 			continue // left by a failed block with a corrupted count: not dumped (data stays "": not judged)
 		}
@@ -663,6 +724,36 @@ func c18Snapshot(res proto.Results) []c18Pre {
 		out[i].rows = c18Rows(rc.Data)
 	}
 	return out
+}
+
+func c18TypeOf(c proto.Column) (t string) {
+	defer func() {
+		if recover() != nil {
+			t = ""
+		}
+	}()
+	return string(c.Type())
+}
+
+// c18TupleArity: a tuple target with an adopting element that was offered a Tuple type with another number of elements
+// holds the parameters it held before: the type cannot be adopted, element by element or in part
+func c18TupleArity(pre c18Pre, rc proto.ResultColumn, srv string) string {
+	tup, ok := rc.Data.(proto.ColTuple)
+	if !ok || pre.typ == "" || !strings.HasPrefix(srv, "Tuple(") {
+		return ""
+	}
+	if len(c18TopArgs(string(proto.ColumnType(srv).Elem()))) == len(tup) {
+		return ""
+	}
+	for _, e := range tup {
+		if _, inf := e.(proto.Inferable); inf {
+			if now := c18TypeOf(tup); now != pre.typ {
+				return fmt.Sprintf("a tuple target of %d elements reported %q, was offered %q and reports %q", len(tup), pre.typ, srv, now)
+			}
+			return ""
+		}
+	}
+	return ""
 }
 
 func c18Rows(c proto.ColResult) (n int) {
@@ -770,6 +861,11 @@ func c18Judge(auto bool, pre []c18Pre, res proto.Results, o c18Out, rows int, sr
 	for i, rc := range res {
 		if pre[i].name != "" && rc.Name != pre[i].name {
 			return fmt.Sprintf("FAIL:name: target %d was renamed from %q to %q", i, pre[i].name, rc.Name)
+		}
+		if i < len(srcs) {
+			if m := c18TupleArity(pre[i], rc, srcs[i].typ); m != "" {
+				return "FAIL:adopt: " + m
+			}
 		}
 		if pre[i].data == "" {
 			continue
@@ -1504,6 +1600,40 @@ var c18Nests = []c18NestSpec{
 		variants: []c18NestVar{
 			c18NV("LowCardinality(DateTime)", ss("DateTime")), c18NV("LowCardinality(DateTime('UTC'))", ss("DateTime('UTC')")),
 			c18NV("LowCardinality(DateTime('Europe/Moscow'))", ss("DateTime('Europe/Moscow')"))}},
+	// Tuple hands element i the i-th argument of Tuple(...), Named strips its name (repaired by C18y: both used to hand the
+	// whole string on, so that none of the blocks below could bind)
+	{leaves: c18Leafs(c18DT64), wrap: func(l []proto.Column) proto.Column { return proto.ColTuple{new(proto.ColStr), l[0]} },
+		variants: []c18NestVar{
+			c18NV("Tuple(String, DateTime64(3))", ss("DateTime64(3)")), c18NV("Tuple(String, DateTime64(6, 'UTC'))", ss("DateTime64(6, 'UTC')")),
+			c18NV("Tuple(String, DateTime64(9, 'Europe/Berlin'))", ss("DateTime64(9, 'Europe/Berlin')")),
+			c18NV("Tuple(String, DateTime64(0))", ss("DateTime64(0)"))}},
+	{leaves: c18Leafs(c18Enum, c18DT), wrap: func(l []proto.Column) proto.Column {
+		return proto.ColTuple{l[0], l[1].(*proto.ColDateTime).Nullable()}
+	}, variants: []c18NestVar{
+		c18NV("Tuple(Enum8('a' = 1, 'b' = 2), Nullable(DateTime('UTC')))", ss("Enum8('a' = 1, 'b' = 2)", "DateTime('UTC')"), "a", "b"),
+		c18NV("Tuple(Enum16('a' = 1000, 'b' = -1), Nullable(DateTime))", ss("Enum16('a' = 1000, 'b' = -1)", "DateTime"), "a", "b"),
+		c18NV("Tuple(Enum8('c' = 1,'d' = 2,'e' = 3), Nullable(DateTime('Europe/Moscow')))", ss("Enum8('c' = 1,'d' = 2,'e' = 3)", "DateTime('Europe/Moscow')"), "c", "d", "e")}},
+	{leaves: c18Leafs(c18Enum, c18DT64), wrap: func(l []proto.Column) proto.Column {
+		return proto.ColTuple{proto.Named[string](new(proto.ColStr), "s"), proto.Named[string](l[0].(*proto.ColEnum), "e"),
+			proto.Named[time.Time](l[1].(*proto.ColDateTime64), "t")}
+	}, variants: []c18NestVar{
+		c18NV("Tuple(s String, e Enum8('a' = 1, 'b' = 2), t DateTime64(3))", ss("Enum8('a' = 1, 'b' = 2)", "DateTime64(3)"), "a", "b"),
+		c18NV("Tuple(s String, e Enum16('x' = 300), t DateTime64(6, 'UTC'))", ss("Enum16('x' = 300)", "DateTime64(6, 'UTC')"), "x"),
+		c18NV("Tuple(s String, e Enum8('b' = 1, 'a' = 2), t DateTime64(9))", ss("Enum8('b' = 1, 'a' = 2)", "DateTime64(9)"), "a", "b")}},
+	{leaves: c18Leafs(c18Enum, c18DT64, c18DT), wrap: func(l []proto.Column) proto.Column {
+		return proto.ColTuple{new(proto.ColStr), proto.ColTuple{l[0], l[1].(*proto.ColDateTime64).Array()}, l[2]}
+	}, variants: []c18NestVar{
+		c18NV("Tuple(String, Tuple(Enum8('a' = 1, 'b' = 2), Array(DateTime64(3, 'UTC'))), DateTime)",
+			ss("Enum8('a' = 1, 'b' = 2)", "DateTime64(3, 'UTC')", "DateTime"), "a", "b"),
+		c18NV("Tuple(String, Tuple(Enum16('q' = 500), Array(DateTime64(9))), DateTime('UTC'))",
+			ss("Enum16('q' = 500)", "DateTime64(9)", "DateTime('UTC')"), "q"),
+		c18NV("Tuple(String, Tuple(Enum8('c' = 1, 'd' = 2), Array(DateTime64(6))), DateTime('Europe/Moscow'))",
+			ss("Enum8('c' = 1, 'd' = 2)", "DateTime64(6)", "DateTime('Europe/Moscow')"), "c", "d")}},
+	{leaves: c18Leafs(c18Enum), wrap: func(l []proto.Column) proto.Column {
+		return proto.ColTuple{proto.NewMap[string, string](new(proto.ColStr), l[0].(*proto.ColEnum)), new(proto.ColInt64)}
+	}, variants: []c18NestVar{
+		c18NV("Tuple(Map(String, Enum8('a' = 1, 'b' = 2)), Int64)", ss("Enum8('a' = 1, 'b' = 2)"), "a", "b"),
+		c18NV("Tuple(Map(String, Enum16('z' = 7)), Int64)", ss("Enum16('z' = 7)"), "z")}},
 }
 
 // c18NestCol builds the structure around leaves carrying the parameters of variant v (nil: leaves without parameters)
@@ -1743,6 +1873,24 @@ var c18Arities = []c18Spec{
 	c18Tup(func() proto.Column { return proto.ColTuple{proto.Named[int8](new(proto.ColInt8), "a")} }),
 	c18Tup(func() proto.Column {
 		return proto.ColTuple{proto.Named[int8](new(proto.ColInt8), "a"), proto.Named[string](new(proto.ColStr), "b")}
+	}),
+	// ... with adopting elements: ColTuple.Infer refuses a type with another number of arguments before any element is touched
+	c18Tup(func() proto.Column { return proto.ColTuple{new(proto.ColDateTime64).WithPrecision(proto.PrecisionMilli)} }),
+	c18Tup(func() proto.Column {
+		return proto.ColTuple{new(proto.ColDateTime64).WithPrecision(proto.PrecisionMicro), new(proto.ColStr)}
+	}),
+	c18Tup(func() proto.Column {
+		return proto.ColTuple{new(proto.ColDateTime64).WithPrecision(proto.PrecisionNano), new(proto.ColStr), new(proto.ColDateTime64).WithPrecision(0)}
+	}),
+	c18Tup(func() proto.Column {
+		return proto.ColTuple{new(proto.ColStr), new(proto.ColDateTime64).WithPrecision(proto.PrecisionNano)}
+	}),
+	c18Tup(func() proto.Column {
+		return proto.ColTuple{proto.Named[time.Time](new(proto.ColDateTime64).WithPrecision(proto.PrecisionMilli), "a")}
+	}),
+	c18Tup(func() proto.Column {
+		return proto.ColTuple{proto.Named[time.Time](new(proto.ColDateTime64).WithPrecision(proto.PrecisionMicro), "a"),
+			proto.Named[string](new(proto.ColStr), "b")}
 	}),
 	c18Tup(func() proto.Column { return proto.NewMap[string, string](new(proto.ColStr), new(proto.ColStr)) }),
 	c18TupAs("Map(String)", func() proto.Column { return proto.NewMap[string, string](new(proto.ColStr), new(proto.ColStr)) }),
